@@ -33,3 +33,5 @@ def run(ctx):
         adpcmenc.run(ctx, "C04", 60 if q else 600)
         from .. import voxcamp        # OKI/VOX: N <= F < N + 2 for every partition into write calls, odd totals (lean/SfProps/C05Vox.lean vox_frames_bound)
         voxcamp.run(ctx, "C04", 80 if q else 800)
+        from .. import setcmds        # conversion / header setters (SFC_TEST_IEEE_FLOAT_REPLACE, ...) issued between the writes of an SFM_WRITE handle (lean/SfProps/C04IeeeReinit.lean)
+        setcmds.run(ctx, "C04", kinds=("new-w",))
